@@ -89,7 +89,7 @@ def build() -> Check:
             ck.ob("R3.refreshed-status-must-be-started", construct, not bad3, trace_sig(bad3[0]) if bad3 else "", cell=st)
         for t in traces[:1]:
             ck.sample({"cell": st, "trace": trace_sig(t)})
-    ck.floor("function_entries_judged", n_user, 10)
+    ck.floor("function_entries_judged", n_user, 3)
     return ck
 
 
